@@ -2,7 +2,7 @@
    ONLY statements closed by exact/apply + Print Assumptions. *)
 From Coq Require Import ZArith List Bool Arith Lia Permutation.
 Import ListNotations.
-From PV Require Import Sched.Block Sched.Confluence Sched.Accept.
+From PV Require Import Sched.Block Sched.Confluence Sched.Accept Sched.DagAccept.
 (* the same theorems with NO footprint hypothesis for blocks of the RTL language: see Props/C01_rtl.v *)
 From PV Require Import Props.C01_rtl.
 
@@ -60,6 +60,27 @@ Theorem C01_accepted_schedule_fixed_point {val : Type} (d : design) (R : nat -> 
   forall o, sched_ok d o = true -> forall e i, In i (ids d) -> fixed_under (Bd d R) i (run_list (Bd d R) o e).
 Proof. exact (accepted_schedule_fixed_point d R). Qed.
 
+(* (6) ALL schedules at once: if pymtl3's constraint graph G (top._dag.all_constraints between the comb blocks) is accepted
+   by dag_ok — every pair the bit-level footprints require is connected by a path of G, the paths being supplied by the
+   harness and only checked here — then every two linear extensions of G, i.e. every two schedules that ANY tie-break
+   of a topological-sort scheduler could produce, compute the same state *)
+Theorem C01_all_schedules_of_accepted_graph_agree {val : Type} (d : design) (R : nat -> env bit val -> env bit val) :
+  sw_ok d = true -> (forall i, In i (ids d) -> frame (Bd d R i)) -> (forall i, In i (ids d) -> dep (Bd d R i)) ->
+  forall G paths, dag_ok d G paths = true ->
+  forall o1 o2, perm_b d o1 = true -> lin_ext_b (Gb G) o1 = true -> perm_b d o2 = true -> lin_ext_b (Gb G) o2 = true ->
+  forall e, eqe (run_list (Bd d R) o1 e) (run_list (Bd d R) o2 e).
+Proof. exact (dag_all_schedules_agree d R). Qed.
+
+Theorem C01_accepted_graph_accepts_every_linear_extension d G paths : dag_ok d G paths = true ->
+  forall o, perm_b d o = true -> lin_ext_b (Gb G) o = true -> sched_ok d o = true.
+Proof. exact (dag_ok_sound d G paths). Qed.
+
+Example C01_graph_nonvacuous :
+  dag_ok exD3 [(0, 1); (1, 2)]%nat [[0; 1; 2]%nat] = true /\
+  dag_ok exD3 [(0, 1)]%nat [[0; 1; 2]%nat] = false /\
+  perm_b exD3 [0; 1; 2]%nat = true /\ lin_ext_b (Gb [(0, 1); (1, 2)]%nat) [0; 1; 2]%nat = true.
+Proof. exact dag_ok_example. Qed.
+
 (* non-vacuity: a 4-block diamond (0 feeds 1 and 2, both feed 3) is accepted in both of its linear extensions *)
 Definition diamond : design :=
   mkDesign 4 (fun i => match i with 1%nat | 2%nat => [(0%nat, 0%Z, 8%Z)] | 3%nat => [(1%nat, 0%Z, 8%Z); (2%nat, 0%Z, 4%Z)] | _ => [(9%nat, 0%Z, 1%Z)] end)
@@ -71,3 +92,4 @@ Proof. vm_compute. repeat split. Qed.
 Print Assumptions C01_schedule_independent. Print Assumptions C01_fixed_point. Print Assumptions C01_unique_solution.
 Print Assumptions C01_ff_order_independent. Print Assumptions C01_accepted_schedules_agree.
 Print Assumptions C01_accepted_schedule_fixed_point.
+Print Assumptions C01_all_schedules_of_accepted_graph_agree. Print Assumptions C01_accepted_graph_accepts_every_linear_extension.
